@@ -711,6 +711,17 @@ static void ob_state(H<T>& h)
     typename A::chk const base = A::fresh(w);
     typename A::chk const full = A::run(w, calls, base, always_true<typename A::chk>());
     state_checks<T>(h, w, full, "[uninterrupted]");
+    // started from the text of the checkpoint that has no results yet
+    {
+        bool ok = false;
+        typename A::chk re = reload<T, A>(h, ser(base), "empty checkpoint", ok);
+        h.check("C19|state.empty_checkpoint_read_back", h.truth(ok));
+        if (ok)
+        {
+            typename A::chk const fin = A::run(w, calls, re, always_true<typename A::chk>());
+            state_checks<T>(h, w, fin, "[started from text]");
+        }
+    }
     // resumed from text after the first iteration
     if (n >= 2)
     {
